@@ -1037,17 +1037,18 @@ def r_shuffle_builtins(name):
         cv, st = ('avm_u2f', 'avm_f2u') if b == 32 else ('avm_u2d', 'avm_d2u')
         xa, xb = '%s(AVM_L%d(a, i))' % (cv, b), '%s(AVM_L%d(b, i))' % (cv, b)
         fexpr = 'AVM_%s_f%d(%s, %s)' % ({'*': 'FMUL', '/': 'FDIV', '+': 'FADD', '-': 'FSUB'}[op], b, xa, xb)
-        # rounding argument: 4 = current direction (the only value AVEL uses); others would need an explicit mode
-        body = ('  __CPROVER_assert(rounding == 4, "model: only _MM_FROUND_CUR_DIRECTION is modelled");\n'
-                '  m512 r = {{0}};\n  for (int i = 0; i < %d; i++) AVM_S%d(r, i, %s(%s));\n  return r;\n' % (512 // b, b, st, fexpr))
+        # rounding argument {er}: 4 = current direction (MXCSR.RC); 8..11 = static rounding mode in bits 1:0 with exceptions
+        # suppressed (countl_zero & co. of the AVX-512F-without-CD branches use _MM_FROUND_TO_ZERO | _MM_FROUND_NO_EXC)
+        body = ('  int er_saved = avm_er_enter(rounding);\n'
+                '  m512 r = {{0}};\n  for (int i = 0; i < %d; i++) AVM_S%d(r, i, %s(%s));\n  avm_er_leave(er_saved);\n  return r;\n' % (512 // b, b, st, fexpr))
         return M('m512', [('m512', 'a'), ('m512', 'b'), ('int', 'rounding')], body, imm=[2])
     if name == '__builtin_ia32_cvtudq2ps512_mask':
-        body = ('  __CPROVER_assert(rounding == 4, "model: only _MM_FROUND_CUR_DIRECTION is modelled");\n'
-                '  m512 r = {{0}};\n  for (int i = 0; i < 16; i++) AVM_S32(r, i, ((k >> i) & 1) ? avm_f2u((float)AVM_L32(a, i)) : AVM_L32(src, i));\n  return r;\n')
+        body = ('  int er_saved = avm_er_enter(rounding);\n'
+                '  m512 r = {{0}};\n  for (int i = 0; i < 16; i++) { AVM_VOL uint32_t x = AVM_L32(a, i); AVM_S32(r, i, ((k >> i) & 1) ? avm_f2u((float)x) : AVM_L32(src, i)); }\n  avm_er_leave(er_saved);\n  return r;\n')
         return M('m512', [('m512', 'a'), ('m512', 'src'), ('uint16_t', 'k'), ('int', 'rounding')], body, imm=[3])
     if name == '__builtin_ia32_cvtuqq2pd512_mask':
-        body = ('  __CPROVER_assert(rounding == 4, "model: only _MM_FROUND_CUR_DIRECTION is modelled");\n'
-                '  m512 r;\n  for (int i = 0; i < 8; i++) r.q[i] = ((k >> i) & 1) ? avm_d2u((double)a.q[i]) : src.q[i];\n  return r;\n')
+        body = ('  int er_saved = avm_er_enter(rounding);\n'
+                '  m512 r;\n  for (int i = 0; i < 8; i++) { AVM_VOL uint64_t x = a.q[i]; r.q[i] = ((k >> i) & 1) ? avm_d2u((double)x) : src.q[i]; }\n  avm_er_leave(er_saved);\n  return r;\n')
         return M('m512', [('m512', 'a'), ('m512', 'src'), ('uint8_t', 'k'), ('int', 'rounding')], body, imm=[3])
     m = re.match(r'^__builtin_ia32_pternlog(d|q)(128|256|512)_mask$', name)
     if m:
